@@ -124,8 +124,14 @@ def mc_task(logic, n, ftxts, opts=None):
             nfair = opts.get('fair')
             fair_names = ['f%d' % k for k in range(nfair)] if nfair is not None else []
             extra = ['%s_%d' % (fn_, i) for fn_ in fair_names for i in range(n)] if not opts.get('fair_const') else []
-            h = sym_kripke(n, aps=aps, mods=LOGIC_MODS[logic], fold=fold, care_total=True, fixed=fixed, perm=perm,
-                           bounds=bounds_for(n, logic), states=states, label_pool=lab_pool, extra=extra)
+            mods = set(LOGIC_MODS[logic])
+            for o in opts.get('also', ()):
+                mods |= LOGIC_MODS[o]
+            h = sym_kripke(n, aps=aps, mods=mods, fold=fold, care_total=True, fixed=fixed, perm=perm,
+                           bounds=bounds_for(n, 'CTLS' if opts.get('also') else logic), states=states, label_pool=lab_pool, extra=extra,
+                           junk=opts.get('junk'))
+            if opts.get('tie') is not None:
+                see.ORDER['tie'] = opts['tie']
             if h is None:
                 rec.update(verdict='unsat', skipped='no total structure on this fork', queries=0, solver_s=0, gates=0)
                 out.append(rec)
@@ -155,8 +161,33 @@ def mc_task(logic, n, ftxts, opts=None):
                         for k in list(s.bits):
                             s.put(k, b_not(s.bits[k]))
                         s.put('junk', True)
-                res2 = h.ctx.call(mcmod.modelcheck, [h.K, f], {})
+                res2 = h.ctx.call(mcmod.modelcheck, [h.K, f], kw)
                 resv2 = vec(res2, st)
+                excg = exc_guard(h.fr)
+                mut = mutated(h.K, snap)
+            extra_pairs = {}
+            for o in opts.get('also', ()):
+                omod = importlib.import_module('pyModelChecking.%s.model_checking' % o)
+                of = parse(o, opts.get('also_text', {}).get(o, ftxt))
+                ores = h.ctx.call(omod.modelcheck, [h.K, of], {})
+                extra_pairs['agree_' + o] = vec(ores, st)
+            if opts.get('as_text'):
+                tres = h.ctx.call(mcmod.modelcheck, [h.K, ftxt], kw)
+                extra_pairs['textobj'] = vec(tres, st)
+            if opts.get('interleave'):
+                # the same formula on another structure (labels complemented, transitions reversed where total), then K again
+                import pyModelChecking.kripke as KR
+                L2 = MDict()
+                for i in range(n):
+                    s2 = MSet()
+                    for a in aps:
+                        s2.put(a, b_not(h.lab[a][i]))
+                    h.ctx.setitem(L2, st[i], s2)
+                K2 = h.ctx.call(KR.Kripke, [], {'S': list(st), 'R': h.R, 'L': L2})
+                h.ctx.call(mcmod.modelcheck, [K2, f], kw)
+                res3 = h.ctx.call(mcmod.modelcheck, [h.K, f], kw)
+                extra_pairs['determ'] = vec(res3, st)
+            if extra_pairs:
                 excg = exc_guard(h.fr)
                 mut = mutated(h.K, snap)
             unw = unwind_guard(h.vm)
@@ -166,11 +197,21 @@ def mc_task(logic, n, ftxts, opts=None):
             # ---- decide
             care = total_text(n, fixed=fixed)
             depths = None
-            if logic != 'CTL' or opts.get('ctls_oracle'):
-                depths = oracle_depths(f, n, aps, fixed, fair_names if nfair is not None else None, const=bool(opts.get('fair_const')))
+            if (logic != 'CTL' or opts.get('ctls_oracle')) and not opts.get('sub_n'):
+                depths = oracle_depths(f, n, aps, fixed, fair_names if nfair is not None else None, const=bool(opts.get('fair_const')), pool=lab_pool)
             d = Decider(care, timeout_ms=opts.get('timeout_ms', 300000), record=bool(opts.get('cross')))
             T2, lab2 = matrix(n, fixed=fixed), labels(n, aps, fixed=fixed)
-            if logic == 'CTL' and not opts.get('ctls_oracle'):
+            if lab_pool:
+                lab2 = {lab_pool[a]: v for a, v in lab2.items()}
+            sub_n = opts.get('sub_n')
+            if sub_n:
+                # the oracle only sees the sub-structure on the first sub_n states (the others are unreachable from it)
+                want = oracles.ctls(f, [row[:sub_n] for row in T2[:sub_n]], {a: v[:sub_n] for a, v in lab2.items()}, sub_n,
+                                    depths=oracles.Depths('fixed', inner=sub_n * 16, outer=sub_n * 16))
+                resv = resv[:sub_n]
+                stable = False
+                rec['oracle'] = 'CTL* oracle on the %d-state sub-structure only' % sub_n
+            elif logic == 'CTL' and not opts.get('ctls_oracle'):
                 want = oracles.ctl(f, T2, lab2, n)
                 rec['oracle'] = 'CTL fixpoints, n unrollings each'
                 stable = False
@@ -209,6 +250,15 @@ def mc_task(logic, n, ftxts, opts=None):
                 rec['stable'] = d.violated(stable) if stable is not False else 'unsat'
             if resv2 is not None:
                 rec['recall'] = d.differ(resv2, want)
+                if rec['recall'] == 'sat':
+                    rec['recall_model'] = d.differ_model(resv2, want)
+                rec['recall_same'] = d.differ(resv, resv2)          # implementation vs implementation
+                if rec['recall_same'] == 'sat':
+                    rec['recall_same_model'] = d.differ_model(resv, resv2)
+            for nm_, v2 in extra_pairs.items():
+                rec[nm_] = d.differ(resv, v2)              # implementation vs implementation
+                if rec[nm_] == 'sat':
+                    rec[nm_ + '_model'] = d.differ_model(resv, v2)
             # twin: the answer is not a constant vector (the structure matters) and the assumption is satisfiable
             rec['care_sat'] = d.holds()
             nontriv = any(not is_c(x) for x in resv)
@@ -225,7 +275,7 @@ def mc_task(logic, n, ftxts, opts=None):
     return out
 
 
-def oracle_depths(f, n, aps, fixed, fair_names=None, const=False):
+def oracle_depths(f, n, aps, fixed, fair_names=None, const=False, pool=None):
     """number of unrollings the product fixpoints need, found with functional reduction on (not trusted: the raw oracle
     is emitted with these depths and the solver proves that one more unrolling changes nothing)"""
     from .harness import tnames, lnames, total_of
@@ -237,6 +287,8 @@ def oracle_depths(f, n, aps, fixed, fair_names=None, const=False):
         see.restrict_care(care)
     dp = oracles.Depths('stable')
     T, lab = matrix(n, fixed=fixed), labels(n, aps, fixed=fixed)
+    if pool:
+        lab = {pool[a]: v for a, v in lab.items()}
     fair = [[True if const else var('%s_%d' % (nm, i)) for i in range(n)] for nm in fair_names] if fair_names is not None else None
     oracles.ctls(f, T, lab, n, fair=fair, depths=dp)
     if not was_on:
@@ -462,5 +514,171 @@ def mcf_replay(rec, model):
     R, L = model_to_structure(model, n, ('p', 'q'), rec.get('fixed'))
     F = [[i for i in range(n) if model.get('f%d_%d' % (k, i))] for k in range(rec.get('nfair', 1))]
     path = write_replay('C15', MCF_REPLAY % dict(root=ROOT, logic=rec['logic'], ftxt=rec['formula'], n=n, R=R, L=L, F=F))
+    ok, out = run_replay(path)
+    return (path if ok else None), out
+
+
+# ------------------------------------------------------------------ C04: semantic laws, implementation vs implementation
+def ctl_laws(F, G):
+    P = lambda s: s if s.isalnum() else '(%s)' % s
+    f, g = P(F), P(G)
+    NOT = lambda a: ('not', a)
+    AND = lambda a, b: ('and', a, b)
+    OR = lambda a, b: ('or', a, b)
+    return [
+        ('complement', 'not %s' % f, NOT(F)),
+        ('and', '(%s and %s)' % (f, g), AND(F, G)),
+        ('or', '(%s or %s)' % (f, g), OR(F, G)),
+        ('implies', '(%s --> %s)' % (f, g), OR(NOT(F), G)),
+        ('AX=notEXnot', 'A X %s' % f, NOT('E X not %s' % f)),
+        ('AG=notEFnot', 'A G %s' % f, NOT('E F not %s' % f)),
+        ('AF=notEGnot', 'A F %s' % f, NOT('E G not %s' % f)),
+        ('AU=notERnot', 'A(%s U %s)' % (f, g), NOT('E((not %s) R (not %s))' % (f, g))),
+        ('AR=notEUnot', 'A(%s R %s)' % (f, g), NOT('E((not %s) U (not %s))' % (f, g))),
+        ('EU expansion', 'E(%s U %s)' % (f, g), OR(G, AND(F, 'E X (E(%s U %s))' % (f, g)))),
+        ('AU expansion', 'A(%s U %s)' % (f, g), OR(G, AND(F, 'A X (A(%s U %s))' % (f, g)))),
+        ('AG expansion', 'A G %s' % f, AND(F, 'A X (A G %s)' % f)),
+        ('EG expansion', 'E G %s' % f, AND(F, 'E X (E G %s)' % f)),
+        ('AF expansion', 'A F %s' % f, OR(F, 'A X (A F %s)' % f)),
+        ('EF expansion', 'E F %s' % f, OR(F, 'E X (E F %s)' % f)),
+        ('ER expansion', 'E(%s R %s)' % (f, g), AND(G, OR(F, 'E X (E(%s R %s))' % (f, g)))),
+    ]
+
+
+def ltl_laws(F, G):
+    P = lambda s: s if s.isalnum() else '(%s)' % s
+    f, g = P(F), P(G)
+    AND = lambda a, b: ('and', a, b)
+    return [
+        ('A distributes over and', 'A (%s and %s)' % (f, g), AND('A %s' % f, 'A %s' % g)),
+        ('G expansion', 'A G %s' % f, ('same', 'A (%s and X G %s)' % (f, f))),
+        ('U expansion', 'A (%s U %s)' % (f, g), ('same', 'A (%s or (%s and X (%s U %s)))' % (g, f, f, g))),
+        ('F expansion', 'A F %s' % f, ('same', 'A (%s or X F %s)' % (f, f))),
+        ('R duality', 'A (%s R %s)' % (f, g), ('same', 'A not ((not %s) U (not %s))' % (f, g))),
+        ('double negation', 'A not not %s' % f, ('same', 'A %s' % f)),
+        ('implication', 'A (%s --> %s)' % (f, g), ('same', 'A ((not %s) or %s)' % (f, g))),
+    ]
+
+
+def law_task(logic, n, pairs, opts=None):
+    """for each (f, g): evaluate all formulas of the law schemas by <logic>.modelcheck on ONE symbolic structure and let
+    the solver prove the identities between the returned vectors (no reference semantics involved)"""
+    opts = dict(opts or {})
+    aps = ('p', 'q')
+    mcmod = importlib.import_module('pyModelChecking.%s.model_checking' % logic)
+    out = []
+    for (F, G) in pairs:
+        see.reset()
+        t0 = time.time()
+        rec = dict(logic=logic, n=n, pair=(F, G), laws={})
+        try:
+            start_lemma_log(SEED)
+            h = sym_kripke(n, aps=aps, mods=LOGIC_MODS[logic], fold=True, care_total=True, bounds=bounds_for(n, logic))
+            cache = {}
+
+            def ev(x):
+                if isinstance(x, tuple):
+                    if x[0] == 'not':
+                        return [b_not(a) for a in ev(x[1])]
+                    if x[0] == 'same':
+                        return ev(x[1])
+                    a, b = ev(x[1]), ev(x[2])
+                    return [(b_and if x[0] == 'and' else b_or)(u, v) for u, v in zip(a, b)]
+                if x not in cache:
+                    cache[x] = vec(h.ctx.call(mcmod.modelcheck, [h.K, parse(logic, x)], {}), h.states)
+                return cache[x]
+            laws = (ltl_laws if logic == 'LTL' else ctl_laws)(F, G)
+            pairs_v = [(nm_, ev(lhs), ev(rhs)) for nm_, lhs, rhs in laws]
+            excg, unw = exc_guard(h.fr), unwind_guard(h.vm)
+            rec.update(encode_s=round(time.time() - t0, 2), encoded=sorted(h.vm.encoded), exc=exc_kinds(h.fr), calls=len(cache))
+            d = Decider(total_text(n), timeout_ms=300000)
+            rec['noexc'] = d.violated(excg, unw) if (excg is not False or unw is not False) else 'unsat'
+            for nm_, a, b in pairs_v:
+                r = d.differ(a, b)
+                rec['laws'][nm_] = r
+                if r == 'sat':
+                    rec.setdefault('models', {})[nm_] = d.differ_model(a, b)
+            rec['audit'] = d.audit(batch=1000)
+            rec.update(d.stats())
+            d.close()
+        except see.Unsupported as e:
+            rec.update(error='Unsupported: %s at %s' % (e, see.TRACE[-3:]))
+        out.append(rec)
+    return out
+
+
+LAW_REPLAY = '''
+from pyModelChecking import Kripke, CTL, LTL, CTLS
+logic = %(logic)r; n = %(n)d; R = %(R)r; L = %(L)r
+law = %(law)r; lhs = %(lhs)r; rhs = %(rhs)r
+mod = {'CTL': CTL, 'LTL': LTL, 'CTLS': CTLS}[logic]
+K = Kripke(S=list(range(n)), R=R, L={k: set(v) for k, v in L.items()})
+S = set(range(n))
+def ev(x):
+    if isinstance(x, (tuple, list)):
+        if x[0] == 'not': return S - ev(x[1])
+        if x[0] == 'same': return ev(x[1])
+        return (ev(x[1]) & ev(x[2])) if x[0] == 'and' else (ev(x[1]) | ev(x[2]))
+    return set(mod.modelcheck(K, x))
+a, b = ev(lhs), ev(rhs)
+print('K: R=%%s L=%%s' %% (R, L)); print('law %%s: %%s -> %%s ; %%s -> %%s' %% (law, lhs, a, rhs, b))
+if a != b:
+    print('VIOLATION of C04'); sys.exit(1)
+print('no violation on this input')
+'''
+
+
+def law_replay(rec, law_name):
+    F, G = rec['pair']
+    laws = (ltl_laws if rec['logic'] == 'LTL' else ctl_laws)(F, G)
+    lhs, rhs = [(l, r) for nm_, l, r in laws if nm_ == law_name][0]
+    R, L = model_to_structure(rec['models'][law_name], rec['n'], ('p', 'q'))
+    path = write_replay('C04', LAW_REPLAY % dict(logic=rec['logic'], n=rec['n'], R=R, L=L, law=law_name, lhs=lhs, rhs=rhs))
+    ok, out = run_replay(path)
+    return (path if ok else None), out
+
+
+GEN_REPLAY = '''
+sys.path.insert(0, %(root)r)
+from pyModelChecking import Kripke, CTL, LTL, CTLS
+from verif import explicit
+n = %(n)d; R = %(R)r; L = %(L)r
+states = %(states)s
+order = %(order)r
+junk = %(junk)s
+names = %(names)r                  # atom name used in the structure for p / q
+mods = {'CTL': CTL, 'LTL': LTL, 'CTLS': CTLS}
+def build():
+    return Kripke(S=[states[i] for i in order], R=[(states[a], states[b]) for a in order for b in order if (a, b) in R],
+                  L={states[i]: set([names[a] for a in L[i]] + list(junk)) for i in order})
+def run(logic, formula, K, **kw):
+    try:
+        return mods[logic].modelcheck(K, formula, **kw)
+    except Exception as e:
+        return 'raised %%s: %%s' %% (type(e).__name__, e)
+K = build()
+before = str(sorted(map(repr, K.transitions()))) + str({repr(s): sorted(map(repr, K.labels(s))) for s in K.states()}) + repr(sorted(map(repr, K.S0)))
+idx = {repr(states[i]): i for i in range(n)}
+def norm(r): return {idx[repr(s)] for s in r} if isinstance(r, (set, frozenset, list)) and all(repr(s) in idx for s in r) else r
+%(body)s
+print('K: R=%%s L=%%s states=%%s order=%%s' %% (R, L, states, order))
+if bad:
+    print('VIOLATION of %(pid)s:', bad); sys.exit(1)
+print('no violation on this input')
+'''
+
+
+def gen_replay(pid, rec, model, body, opts=None):
+    """replay with the presentation (state objects, order, label names, junk labels) the symbolic run used"""
+    from .common import ROOT
+    opts = opts or {}
+    n = rec['n']
+    R, L = model_to_structure(model or {}, n, ('p', 'q'), rec.get('fixed'))
+    states = opts.get('states') or list(range(n))
+    names = opts.get('label_pool') or {'p': 'p', 'q': 'q'}
+    order = rec.get('perm') or list(range(n))
+    src = GEN_REPLAY % dict(root=ROOT, n=n, R=R, L=L, states=repr(states), order=list(order), junk=repr(list(opts.get('junk') or [])),
+                            names=names, body=body, pid=pid)
+    path = write_replay(pid, src)
     ok, out = run_replay(path)
     return (path if ok else None), out
